@@ -189,7 +189,8 @@ def main():
         if fn.bounded:
             continue
         provider_only = a.prop not in fn.properties and not fn.canary
-        shapes = list(fn.shapes(a.tier))
+        # a contract that is here only because a stub relies on it runs the shapes the stub needs (if it says which)
+        shapes = list(fn.stub_shapes(a.tier)) if provider_only and hasattr(fn, "stub_shapes") else list(fn.shapes(a.tier))
         shape_count[n] = len(shapes)
         for s in shapes:
             jobs.append((n, s, getattr(fn, "max_paths", 20000), getattr(fn, "budget_s", 600)))
@@ -263,6 +264,10 @@ def main():
             # a structural obligation of the symbolic run (loop cut point, stub call-site precondition, extracted-map
             # lemma) that the native text does not evaluate: the refutation stands, but there is no failing input
             x["confirmed"] = "no-input"
+        elif isinstance(x["witness"], dict) and x["witness"].get("__havoc__"):
+            # the path went through an over-approximating callee contract: the counter-model may be spurious
+            x["confirmed"] = None
+            undec.append((x["contract"], x["shape"], "refutation through an over-approximating stub does not replay: " + x["clause"]))
         else:
             x["confirmed"] = False
         if x["confirmed"] is False:
@@ -356,8 +361,8 @@ def main():
         if REGISTRY[x["contract"]].canary:
             continue
         obl = x["contract"] + "." + x["clause"]
-        if x["confirmed"] is False:
-            continue  # engine disagreement, handled below
+        if x["confirmed"] is False or x["confirmed"] is None:
+            continue  # engine disagreement / not replayable, handled elsewhere
         ent = next((e for e in kf.get("known", []) if known_match(e, a.prop if a.prop in REGISTRY[x["contract"]].properties else REGISTRY[x["contract"]].properties[0], obl, x["shape"], x["witness"] or {})), None)
         if ent is None:  # a finding recorded under another property that shares the contract
             ent = next((e for e in kf.get("known", []) if known_match(e, e["property"], obl, x["shape"], x["witness"] or {}) and e["property"] in REGISTRY[x["contract"]].properties), None)
